@@ -517,3 +517,100 @@ M("c15_commit_up_pos_is_cap", ["C15"], ["C15.R4"], [
                 chunk.set_pos_addr_and_align_from(end.addr().get(), T::ALIGN);""")])
 M("c15_grow_rev_copies_to_new_end_minus_cap", ["C15"], ["C15.R4"], [
     ("src/mut_bump_vec_rev.rs", "let dst = end.as_ptr().sub(self.len);", "let dst = end.as_ptr().sub(cap);")])
+
+# ---------------------------------------------------------------- C07
+M("c07_try_reserve_via_infallible", ["C07"], ["C07.R2"], [
+    ("src/bump_vec.rs", """    pub fn try_reserve(&mut self, additional: usize) -> Result<(), AllocError> {
+        self.generic_reserve(additional)
+    }""", """    pub fn try_reserve(&mut self, additional: usize) -> Result<(), AllocError> {
+        crate::panic_on_error(self.generic_reserve(additional));
+        Ok(())
+    }""")])
+M("c07_insert_reserve_after_shift", ["C07"], ["C07.R4"], [
+    ("src/bump_vec.rs", """        self.generic_reserve_one()?;
+
+        unsafe {
+            let pos = self.as_mut_ptr().add(index);
+
+            if index != self.len() {
+                let len = self.len() - index;
+                ptr::copy(pos, pos.add(1), len);
+            }
+
+            pos.write(element);""", """        unsafe {
+            if index != self.len() && self.len() < self.capacity() {
+                let pos = self.as_mut_ptr().add(index);
+                let len = self.len() - index;
+                ptr::copy(pos, pos.add(1), len);
+                self.generic_reserve_one()?;
+            } else {
+                self.generic_reserve_one()?;
+                let pos = self.as_mut_ptr().add(index);
+                if index != self.len() {
+                    let len = self.len() - index;
+                    ptr::copy(pos, pos.add(1), len);
+                }
+            }
+            let pos = self.as_mut_ptr().add(index);
+
+            pos.write(element);""")])
+M("c07_alloc_slice_unwraps_layout", ["C07"], ["C07.R5"], [
+    ("src/raw_bump.rs", """    pub(crate) fn alloc_slice<E: ErrorBehavior, T>(&self, len: usize) -> Result<NonNull<T>, E> {
+        let Ok(layout) = ArrayLayout::array::<T>(len) else {
+            return Err(E::capacity_overflow());
+        };""", """    pub(crate) fn alloc_slice<E: ErrorBehavior, T>(&self, len: usize) -> Result<NonNull<T>, E> {
+        let layout = ArrayLayout::array::<T>(len).unwrap();""")])
+M("c12_grow_size_wraps", ["C12"], ["C12.R1"], [
+    ("src/raw_bump.rs", """        let Some(size) = self.size().get().checked_mul(2) else {
+            return Err(B::capacity_overflow());
+        };""", """        let size = self.size().get().wrapping_mul(2);""")], tier="quick")
+M("c07_infallible_capacity_overflow_returns", ["C07"], ["C07.R1", "C07.R2"], [
+    ("src/error_behavior.rs", """    #[inline(always)]
+    fn claimed() -> Self {
+        panic::claimed()
+    }
+
+    #[inline(always)]
+    fn fixed_size_vector_is_full() -> Self {
+        panic::fixed_size_vector_is_full()""", """    #[inline(always)]
+    fn claimed() -> Self {
+        #[allow(unreachable_code)]
+        loop { if core::hint::black_box(true) { panic::claimed() } }
+    }
+
+    #[inline(always)]
+    fn fixed_size_vector_is_full() -> Self {
+        panic::fixed_size_vector_is_full()""")], negative=True)
+M("c07_allocator_impl_grow_aborts_on_failure", ["C07"], ["C07.R2"], [
+    ("src/allocator_impl.rs", """                // We can't grow in place. We have to make a new allocation.
+                let new_ptr = bump.alloc::<AllocError>(new_layout)?;
+                old_ptr.copy_to_nonoverlapping(new_ptr, old_layout.size());
+                Ok(NonNull::slice_from_raw_parts(new_ptr, new_layout.size()))
+            }
+        } else {""", """                // We can't grow in place. We have to make a new allocation.
+                let new_ptr = crate::panic_on_error(bump.alloc::<crate::Infallible>(new_layout));
+                old_ptr.copy_to_nonoverlapping(new_ptr, old_layout.size());
+                Ok(NonNull::slice_from_raw_parts(new_ptr, new_layout.size()))
+            }
+        } else {""")])
+M("c07_try_alloc_str_routes_panicking", ["C07"], ["C07.R2"], [
+    ("src/traits/bump_allocator_typed_scope.rs", """    fn try_alloc_str(&self, src: &str) -> Result<BumpBox<'a, str>, AllocError> {""",
+     """    fn try_alloc_str(&self, src: &str) -> Result<BumpBox<'a, str>, AllocError> {
+        if src.len() > 4096 { return Ok(self.alloc_str(src)); }""")])
+M("c07_mut_vec_extend_copy_writes_then_reserves", ["C07"], ["C07.R4"], [
+    ("src/mut_bump_vec.rs", """            let len = other.len();
+            self.generic_reserve(len)?;
+
+            let src = other.cast::<T>();
+            let dst = self.as_mut_ptr().add(self.len());
+            ptr::copy_nonoverlapping(src, dst, len);
+""", """            let len = other.len();
+            let src = other.cast::<T>();
+            if len <= self.capacity() - self.len() {
+                let dst = self.as_mut_ptr().add(self.len());
+                ptr::copy_nonoverlapping(src, dst, len);
+            }
+            self.generic_reserve(len)?;
+            let dst = self.as_mut_ptr().add(self.len());
+            ptr::copy_nonoverlapping(src, dst, len);
+""")])
